@@ -80,7 +80,7 @@ def body_periodic(rec, kind, interval, first_zero, steps):
 
 CHECKS = [Check("periodic_handlers", lambda rec, c=None, **kw: body_periodic(rec, **(c if c is not None else kw)),
                 lambda: {"c": periodic_case()}, quick=150, thorough=1500, quick_shards=4, thorough_shards=16),
-          Check("history", body, lambda: {"c": config_case(sampling_focus=True, min_end=(2.0, 12.0),
+          Check("history", body, lambda: {"c": config_case(sampling_focus=True, min_end=(2.0, 12.0), g7_one_in=5,
                                                            max_events=(30000, 30000))},
                 quick=10, thorough=60, quick_shards=16, thorough_shards=16, shrink_quick=False),
           ]
